@@ -92,6 +92,39 @@ def slow_reader_cases(tier):
         cases.append(("stdlib", 0.0, 33.0, "stall-33s"))
     return cases
 
+def run_whole_responses(res, tier, pid="C01"):
+    """C01 over real TLS: one complete response and a clean end of stream, for a body larger than the socket buffers and a
+    reader that starts late (1 s) - both backends (the recorded C06 finding needs > 30 s and is not exercised here)"""
+    tmp = scratch_dir("nv-live1-")
+    try:
+        os.makedirs(os.path.join(tmp, "capsule"))
+        body = make_body(12 * 1024 * 1024 if tier != "quick" else 5 * 1024 * 1024)
+        open(os.path.join(tmp, "capsule", "big.txt"), "wb").write(body)
+        open(os.path.join(tmp, "capsule", "small.gmi"), "wb").write(b"# small\n")
+        for backend in ("stdlib", "pyopenssl"):
+            srv = Server(tmp, backend, 0.0)
+            try:
+                runs = [("/big.txt", b"20 text/plain\r\n" + body, 1.0), ("/small.gmi", b"20 text/gemini\r\n# small\n", 0.0),
+                        ("/missing", None, 0.0)]
+                for path, expected, stall in runs:
+                    got, ended = fetch(srv.port, path, stall)
+                    res.evaluations += 1; res.count("live-" + backend)
+                    res.nontriv(("live-whole", backend, path))
+                    if expected is None:
+                        ok = got.startswith(b"51 ") and got.endswith(b"\r\n") and got.count(b"\r\n") == 1
+                    else:
+                        ok = got == expected
+                    if not ok or ended != "eof":
+                        res.violations.append({"clause": "one complete response, then a clean end of stream (live, %s backend)" % backend,
+                                               "signature": "%s:live-%s" % (pid, backend),
+                                               "case": {"backend": backend, "path": path, "reader_starts_after_s": stall},
+                                               "trace": {"received": len(got), "expected": None if expected is None else len(expected),
+                                                         "head": got[:40].decode("latin-1"), "ended": ended}})
+            finally:
+                srv.stop()
+    finally:
+        shutil.rmtree(tmp, ignore_errors=True)
+
 def run_slow_readers(res, tier, body_size=6 * 1024 * 1024):
     tmp = scratch_dir("nv-live-")
     try:
